@@ -9,6 +9,7 @@ mod c05;
 mod c10;
 mod c12;
 mod c14;
+mod c15;
 
 fn main() {
     let args: Vec<String> = std::env::args().collect();
@@ -21,6 +22,9 @@ fn main() {
         "rl_window" => c05::rl_window(rest),
         "style_build" => c14::style_build(rest),
         "pad_field" => c12::pad_field(rest),
+        "human_float" => c15::human_float(rest),
+        "human_count" => c15::human_count(rest),
+        "formatted_duration" => c15::formatted_duration(rest),
         "template_total" => c10::template_total(rest),
         "template_order" => c10::template_order(rest),
         _ => format!("{{\"found\": false, \"error\": \"unknown routine {}\"}}", routine),
